@@ -24,12 +24,13 @@ SG = A + 'user_components::scope_graph::ScopeId::'
 
 
 def r1_lookup_direction(ctx):
-    from .chains_common import scope_lookup_shape
+    from .chains_common import scope_lookup_shape, concrete_before_templated
     ctx.rule('C04.R1', 'P2/P3 + sibling agreement: ConstructibleDb::get and ::get_or_try_bind walk scopes FIFO from the requesting scope, test the '
              'scope just popped before extending the queue, extend it only with ScopeId::direct_parent_ids (never children), and a miss in a '
              'scope always continues to its parents (the result of the per-scope lookup is returned only under its Some arm).')
     scope_lookup_shape(ctx, 'C04.R1', CONS + 'ConstructibleDb::get', CONS + 'ConstructiblesInScope::get')
     scope_lookup_shape(ctx, 'C04.R1', CONS + 'ConstructibleDb::get_or_try_bind', CONS + 'ConstructiblesInScope::get_or_try_bind')
+    concrete_before_templated(ctx, 'C04.R1', CONS + 'ConstructiblesInScope::get_or_try_bind', CONS + 'ConstructiblesInScope::get')
 
 
 def r2_scopes_and_overrides(ctx):
